@@ -47,6 +47,7 @@ theorem jobMoves_from_finalized {j0 : JobObj} {s : Sys} {a : Action} {j : JobObj
           | true => rfl
           | false => exact absurd ⟨by rw [hd]; rfl, hz⟩ hnot
       | ctlStatus jo sp rv _ _ _ hrv => exact Or.inr (Or.inl ⟨_, rfl, hrv, hfin⟩)
+      | ctlStatusOn jo sp rv0 rv _ _ _ hrv => exact Or.inr (Or.inl ⟨_, rfl, hrv, hfin⟩)
     · -- a later move, from a version written during this step
       subst hx
       cases hmv with
@@ -63,6 +64,7 @@ theorem jobMoves_from_finalized {j0 : JobObj} {s : Sys} {a : Action} {j : JobObj
       | ctlStatus jo sp rv _ hc _ _ =>
         have := (hb.seenOK x (mem_seenVers_cache hc)).2
         omega
+      | ctlStatusOn jo sp rv0 rv _ _ _ hrv => exact Or.inr (Or.inl ⟨_, rfl, hrv, hxf⟩)
     · subst h; cases hmv
 
 /-- job-API calls leave the pods alone -/
@@ -99,12 +101,14 @@ theorem syncOne_pods (s : Sys) (jo : JobObj) (hc : s.jobCache = some jo) (hfr : 
   | true =>
     simp only [Bool.not_true, Bool.false_eq_true, ↓reduceIte]
     have h3 : (if (decide (newJob.status ≠ jo.job.status) || nullTime) = true then
-        apiUpdateJobStatus s2 jo { jo with job := newJob } else (s2, true)).1.pods = s.pods := by
+        apiUpdateJobStatus s2 (statusBase s2 jo (newJob.admissionError ≠ jo.job.admissionError || newFin ≠ jo.finalizer))
+          { jo with job := newJob } else (s2, true)).1.pods = s.pods := by
       split
       · rw [apiUpdateJobStatus_pods]; exact h2
       · exact h2
     generalize (if (decide (newJob.status ≠ jo.job.status) || nullTime) = true then
-        apiUpdateJobStatus s2 jo { jo with job := newJob } else (s2, true)) = r3 at h3 ⊢
+        apiUpdateJobStatus s2 (statusBase s2 jo (newJob.admissionError ≠ jo.job.admissionError || newFin ≠ jo.finalizer))
+          { jo with job := newJob } else (s2, true)) = r3 at h3 ⊢
     obtain ⟨s3, ok2⟩ := r3
     simp only at h3 ⊢
     cases ok2 <;> exact h3
